@@ -106,7 +106,8 @@ def run_property(prop: str, tier: str = 'quick', seed: int = 0, only=None, jobs:
     t_start = time.time()
     REG = load_contracts()
     from pyvc import verify
-    contracts = [ci for ci in REG.values() if prop in ci.props and (only is None or ci.name in only)]
+    contracts = [ci for ci in REG.values() if prop in ci.props and (only is None or ci.name in only) and not ci.assumed]
+    assumed = [ci for ci in REG.values() if prop in ci.props and ci.assumed]
     known = [k for k in load_known() if k.get('property') == prop and k.get('status') == 'known']
     excl: Dict[str, tuple] = {}
     for k in known:
@@ -128,10 +129,10 @@ def run_property(prop: str, tier: str = 'quick', seed: int = 0, only=None, jobs:
             tasks.append((name, prop, p, timeout_s, both, excl.get(name, ()), max_paths))
     with ctx.Pool(jobs) as pool:
         results = pool.map(_task, tasks, chunksize=1)
-    return aggregate(prop, tier, seed, contracts, results, split_errors, known, t_start)
+    return aggregate(prop, tier, seed, contracts, results, split_errors, known, t_start, assumed)
 
 
-def aggregate(prop, tier, seed, contracts, results, split_errors, known, t_start):
+def aggregate(prop, tier, seed, contracts, results, split_errors, known, t_start, assumed=()):
     from pyvc import verify
     from pyvc.contract import REGISTRY
     per: Dict[str, dict] = {ci.name: dict(paths=0, infeasible=0, unsupported=[], inlined=set(), uses=set(), items=[], errors=[],
@@ -247,7 +248,8 @@ def aggregate(prop, tier, seed, contracts, results, split_errors, known, t_start
 
     wall = time.time() - t_start
     level = 'proof' if (not unproved and not undecided and discharged == obligations and obligations > 0) else 'other'
-    trusted = sorted({a for ci in contracts for a in getattr(ci.pycls, 'assumes', ())})
+    trusted = sorted({a for ci in contracts for a in getattr(ci.pycls, 'assumes', ())}
+                     | {f'assumed contract {ci.name} on {ci.target}: {ci.assumed}' for ci in assumed})
     coverage = {
         'obligations': obligations,
         'discharged': discharged,
